@@ -983,7 +983,14 @@ def _check_partials_between(prob, rng_state, comps):
     r = random.Random(rng_state)
     kw = {'method': 'fd', 'form': r.choice(['forward', 'backward', 'central']), 'step': r.choice([1e-2, 1e-5, 1e-7]),
           'step_calc': r.choice(['abs', 'rel_avg', 'rel_element'])}
-    prob.check_partials(out_stream=None, includes=['*' + c['name'] for c in comps], **kw)
+    try:
+        prob.check_partials(out_stream=None, includes=['*' + c['name'] for c in comps], **kw)
+    except Exception as e:
+        # checking with exactly the method and options in force is a documented error
+        # (OMInvalidCheckDerivativesOptionsWarning has filter 'error'): not an operation of the history
+        if type(e).__name__ == 'OMInvalidCheckDerivativesOptionsWarning':
+            return None
+        raise
     return kw
 
 
@@ -1056,13 +1063,15 @@ def _run_colored(case, acc, hist=False):
                         where = 'check_partials'
                         st = rng.random()
                         before = _snap(prob.model)
-                        for p_ in (prob, twin):
-                            _check_partials_between(p_, st, comps)
-                        acc.count('obs:hist-check_partials-between-linearizations')
-                        # (check_partials re-evaluates the residuals of the components it checks: they hold
-                        #  r(inputs, outputs) afterwards, which is not a side effect of an approximation)
-                        first = _restore_viols(acc, [b_ for b_ in _cmp_snap(acc, before, _snap(prob.model))
-                                                     if b_[0] != 'residuals'], K, 'check_partials', case, first)
+                        done_ = [_check_partials_between(p_, st, comps) for p_ in (prob, twin)]
+                        if None in done_:
+                            acc.count('guard:check_partials-with-the-options-in-force-is-a-documented-error')
+                        else:
+                            acc.count('obs:hist-check_partials-between-linearizations')
+                            # (check_partials re-evaluates the residuals of the components it checks: they hold
+                            #  r(inputs, outputs) afterwards, which is not a side effect of an approximation)
+                            first = _restore_viols(acc, [b_ for b_ in _cmp_snap(acc, before, _snap(prob.model))
+                                                         if b_[0] != 'residuals'], K, 'check_partials', case, first)
                     where = 'run_linearize'
                 states = {c['name']: _comp_state(sysm[c['name']], c) for c in comps}
                 out = []
